@@ -285,8 +285,11 @@ def run(ctx):
                         res = (drivers.run_wsgi_guarded if pool else drivers.run_wsgi)(obj, drivers.to_environ(req), fault or None)
                         probs = automata.check_wsgi(res.events, prefix=bool(fault), edges=edges, once=True)
                     else:
-                        res = drivers.run_asgi(obj, drivers.to_scope(req), disconnect_after_sends=(fault + 1) if fault else None)
+                        slow = 0.002 if (not fault and not streaming and i % 2 == 0) else 0.0  # a client that reads slowly: send() takes longer than a thread-pool hop
+                        res = drivers.run_asgi(obj, drivers.to_scope(req), disconnect_after_sends=(fault + 1) if fault else None, slow_send=slow)
                         probs = automata.check_asgi_http(res.sent, prefix=bool(fault), edges=edges)
+                        if not fault and res.pending_sends_at_return:
+                            probs = probs + [("asgi-call-returned-while-a-send-was-still-pending", f"{res.pending_sends_at_return} send() call(s) had not returned")]
                 finally:
                     if pool:
                         pool.__exit__()
